@@ -109,6 +109,7 @@ TREE_C04 = {
         "root": {
             "a.txt": "A", "a.txt.j2": "AJ2", "%2e%2e": "PCT", "\\..": "BSDOTS", "..%2f": "PCTSLASH",
             "b": {"c.txt": "C", "c.txt.j2": "CJ2", "a.txt": "BA"},
+            "x y.txt": "SPACED", "p+q.txt": "PLUS", "p q.txt": "PLUSASSPACE",
         },
         "rootx": {"a.txt": "XA"},
         "root.j2": "ROOTJ2",
